@@ -1,7 +1,8 @@
 /-
 The Poisson Gaussian branch on a concrete witness: λ = 17, u₁ = 3/4, u₂ = e^{−18}.
 Box–Muller gives r = √(−2 ln u₂) = 6 and sin(twopi·3/4) ≈ −1, so the normal sample is
-17 − 6·√17·cos ε ≈ −7.7 and `static_cast<unsigned>(sample + 0.5)` wraps to ≥ 2³¹.
+17 − 6·√17·cos ε ≈ −7.7: the repaired code (73ca547) returns 0 there, whereas the bare
+`static_cast<unsigned>(sample + 0.5)` of the earlier code wraps to ≥ 2³¹.
 -/
 import CelerVerif.Lemmas.DistMore
 import Mathlib.Analysis.Real.Pi.Bounds
